@@ -4,8 +4,9 @@ find the unsound rows of Generated.fromImpls, pick fractional-bit counts that sa
 admissibility, generate a probe program that calls exactly that (newly admitted) conversion, run it and print request lines with the
 implementation's answers (`cvt_from|cvt_lossy s n f x s2 n2 f2 => bits`) for the driver to judge."""
 import re, subprocess, sys, os
-GEN = '/verif/lean/SfxModel/Generated.lean'
-PROBE = '/verif/harness/probe'
+VERIF = os.environ.get('SFX_VERIF') or os.path.dirname(os.path.dirname(os.path.abspath(__file__)))
+GEN = VERIF + '/lean/SfxModel/Generated.lean'
+PROBE = VERIF + '/harness/probe'
 
 def rows():
     s = open(GEN).read()
@@ -20,7 +21,7 @@ def truly(ss, sn, fs, ds, dn, fd):
         return sn - fs <= dn - fd
     return (not ss) and ds and sn - fs + 1 <= dn - fd
 
-GENC = '/verif/lean/SfxModel/GeneratedConv.lean'
+GENC = VERIF + '/lean/SfxModel/GeneratedConv.lean'
 PRIM = {'i8': (True, 8), 'i16': (True, 16), 'i32': (True, 32), 'i64': (True, 64), 'i128': (True, 128), 'isize': (True, 16),
         'u8': (False, 8), 'u16': (False, 16), 'u32': (False, 32), 'u64': (False, 64), 'u128': (False, 128), 'usize': (False, 16), 'bool': (False, 1)}
 
